@@ -22,6 +22,39 @@ def empty_obs(ctx, be):
     return p
 
 
+def source_derivations(repo, declared):
+    """Derivations DECLARED IN THE SOURCES (#[quantity(A op B)] ... struct R) that the hand-written catalogue does
+    not know (a new derived quantity, or a changed derivation).  The catalogue is a lower bound: what such a
+    declaration makes type-check is, by the property's own wording, 'related by a declared derivation'."""
+    import re, glob
+    known = {}
+    for t in declared['types']:
+        dv = t.get('derive')
+        if dv:
+            known[(t['crate'], t.get('rust', t['T'].split('.')[-1]))] = (dv['op'], dv['l'].split('.')[-1], dv['r'].split('.')[-1])
+    extra = []
+    for crate, files, pfx in (('quantities', sorted(glob.glob(os.path.join(repo, 'src', '*.rs'))), ''),
+                              ('astro', sorted(glob.glob(os.path.join(repo, 'astronimical_quantities', 'src', '*.rs'))), 'astro.')):
+        names = {t.get('rust', t['T'].split('.')[-1]) for t in declared['types'] if t['crate'] == crate}
+        for f in files:
+            src = open(f, encoding='utf-8').read()
+            cut = src.find('#[cfg(test)]')
+            src = src if cut < 0 else src[:cut]
+            for m in re.finditer(r'#\[\s*quantity\s*\(\s*(\w+)\s*([*/])\s*(\w+)\s*\)\s*\]', src):
+                ms = re.search(r'\bstruct\s+(\w+)', src[m.end():])
+                if not ms:
+                    continue
+                l, op, r, res = m.group(1), m.group(2), m.group(3), ms.group(1)
+                l, r = ('Amount' if l == 'AmountT' else l), ('Amount' if r == 'AmountT' else r)
+                if known.get((crate, res)) == (op, l, r):
+                    continue
+
+                def nm(x):
+                    return 'Amount' if x == 'AmountT' else (pfx + x if x in names else x)
+                extra.append({'op': op, 'l': nm(l), 'r': nm(r), 'res': nm(res)})
+    return extra
+
+
 def c06(ctx):
     """1350 (+150 astronomical) binary-operator programs per back-end, then type-ascription variants of the accepted
     ones; the same over VERIF_SEED-generated derivation graphs (definitions rendered through the real macro)."""
@@ -29,6 +62,7 @@ def c06(ctx):
     out = []
     declared = qv.load_declared(os.path.join(ctx['spec'], 'catalogue.json'))
     decl_path = ctx['declared_for']('cat')
+    extra_dv = source_derivations(ctx['repo'], declared)
     groups = [('cat', declared, decl_path, ['Amount'] + [t['T'] for t in declared['types'] if t['crate'] == 'quantities'], False, ''),
               ('astro', declared, decl_path, ['Amount'] + [t['T'] for t in declared['types'] if t['crate'] == 'astro'], True, '')]
     # generated derivation graphs
@@ -90,6 +124,9 @@ def c06(ctx):
                     alone['alone'] = True
                     evs2.append(alone)
             tp = os.path.join(ctx['rundir'], 'c06_%s_%s.ndjson' % (gname, be))
+            if not prelude:
+                for e in evs + evs2:
+                    e['extra'] = extra_dv
             write_trace(tp, {'ev': 'Header', 'be': be, 'registry': gname, 'drv': 'c06', 'seed': ctx['seed'], 'tier': ctx['tier']}, evs + evs2, 'Compile')
             out.append(('c06_%s_%s' % (gname, be), tp, empty_obs(ctx, be), dpath))
             for d in (d1, d2):
